@@ -82,6 +82,11 @@ def corpus():
           # (just) a meshgrid row, by 5e-8 on either side of where the test would flip if the two arguments changed places
           mk_make([[1000.0, 2000.0, 4000.0], [1000.01000006, 2000.0, 4000.0]], N, [], [d], ["a"], ("northing", "easting"), None, False, "meshgrid-within-relative-tolerance"),
           mk_make(E, [[10.0, 10.0, 10.0], [2000.0, 2000.02000012, 2000.0]], [], [d], ["a"], ("northing", "easting"), None, False, "meshgrid-within-relative-tolerance"),
+          # a north-up raster (northing decreasing with the row index) and axes in no particular order: rows and columns stay where they are
+          mk_make(e, [20.0, 10.0], [up], [d, up], ["a", "b"], ("northing", "easting"), ["up"], True, "corpus-descending-northing"),
+          mk_make([4.0, 1.0, 2.0], [10.0, 20.0], [], [d], ["a"], ("northing", "easting"), None, True, "corpus-unsorted-easting"),
+          mk_make(*mesh([4.0, 1.0, 2.0], [20.0, 10.0]), [up], [d], ["a"], ("lat", "lon"), ["up"], True, "corpus-unsorted-meshgrid"),
+          mk_table(("y", "x"), [4.0, 1.0, 2.0], [20.0, 10.0], [("up", up)], [("a", d)], "dataset", "ne", "corpus-table-unsorted-axes"),
           # a LINE of points stored as 2-D arrays with a single row / a single column: a meshgrid only if the other coordinate is constant along it
           mk_make([[1.0, 2.0, 4.0, 5.0]], [[10.0, 11.0, 12.0, 13.0]], [], [[[0.0, 1.0, 2.0, 3.0]]], ["a"], ("northing", "easting"), None, False, "not-meshgrid-line"),
           mk_make([[1.0], [2.0], [4.0]], [[10.0], [20.0], [30.0]], [], [[[0.0], [1.0], [2.0]]], ["a"], ("northing", "easting"), None, False, "not-meshgrid-line"),
@@ -100,6 +105,14 @@ def generate(rng, tier):
     for _ in range(n):
         nn, ne = rng.randint(1, 7), rng.randint(1, 7)
         e, no = axis(rng, ne), axis(rng, nn)
+        u_ = rng.random()
+        if u_ < 0.2:
+            no = no[::-1]                  # a north-up raster: northing DEcreases with the row index; rows stay where they are
+        elif u_ < 0.3:
+            e = e[::-1]
+        elif u_ < 0.38:
+            rng.shuffle(e)                 # axes in no particular order (a table of stations pivoted into a grid)
+            rng.shuffle(no)
         E, N = mesh(e, no)
         nvar = rng.randint(1, 4)
         data = [arr(rng, nn, ne, 100 * k) for k in range(nvar)]
@@ -243,13 +256,18 @@ def impl(case):
     if fn == "grid_to_table":
         dims, east, north, extras, vars_, form, order = a
         coords = {}
+        extras_first = bool(extras) and (len(east) + 2 * len(north) + len(extras)) % 3 == 0
+        if extras_first:      # the non-index coordinates declared BEFORE the index coordinates (a grid read from a file lists them in any order)
+            for k, v in extras:
+                coords[k] = (tuple(dims), _A(v, "x" + str(k), case))
         for key in order:
             if key == "e":
                 coords[dims[1]] = np.array(east)
             else:
                 coords[dims[0]] = np.array(north)
-        for k, v in extras:
-            coords[k] = (tuple(dims), _A(v, "x" + str(k), case))
+        if not extras_first:
+            for k, v in extras:
+                coords[k] = (tuple(dims), _A(v, "x" + str(k), case))
         if form == "dataset":
             g = xr.Dataset({k: (tuple(dims), _A(v, "v" + str(k), case)) for k, v in vars_}, coords=coords)
         else:
